@@ -13,14 +13,14 @@ CHECKS = {
          "trusts tokio's paused clock / timer ordering and FuturesUnordered; in the virtual-time part attempts are scripted futures; the realconnect part uses real loopback sockets, where only accept-at-once and refuse-at-once exist (no latency, no hang)",
          "DESIGN.md 5 (C10), 4.C"),
  "C11": ("eyesim+realconnect", "exploration",
-         "deterministic simulation: same runs as C10; recorded first-poll / completion / drop instants compared with a reference pacing model (exact until the first same-millisecond tie); second part (realconnect): over real loopback sockets the listeners' backlogs tell which candidates were attempted - order, at most once, nothing beyond the winner under concurrency 1, nothing beyond winner + c - 1 under concurrency c",
+         "deterministic simulation: same runs as C10; recorded first-poll / completion / drop instants compared with a reference pacing model (exact until the first same-millisecond tie); second part (realconnect): over real loopback sockets the listeners' backlogs tell which candidates were attempted - order, at most once, nothing beyond the winner under concurrency 1, nothing beyond winner + c - 1 under concurrency c; with nothing but a hanging candidate (full accept queue; alone or followed by refusing ones) the operation ends by the overall deadline of 1 s whatever the per-attempt timeout (5 s / none)",
          "Start order, at-most-once, initial batch size, earliest-legal-start = min(last start + stagger, next failure), nothing after the result, overall deadline, all attempts dropped at completion; grid enumerated for small N and sampled above.",
          "ties between a success, a failure and a stagger tick in the same millisecond are not judged (either order is legal); initial concurrency 0 is treated as 1 (something must start for progress)",
          "DESIGN.md 5 (C11), 4.C"),
 }
 
 POOL_NOTE = "stub transport/protocol/connection (SimConn models HttpConnection: is_open = open && (h2 || !busy), can_share = h2); unit of interleaving = one poll/drop of one future; tokio current-thread scheduler and paused clock trusted"
-POOL_TECH = "deterministic simulation: the real pool between stub endpoints, seeded step lists (issue/poll/cancel/dial/handshake/respond/close/background/clock) with fault injection, drain + probe phases; invariants at every hand-off and history checks; delta-debugged replay files"
+POOL_TECH = "deterministic simulation: the real pool between stub endpoints, seeded step lists (issue/poll/cancel/dial/handshake/respond/close/background/clock, and - C03/C14/C15 - back-pressure gates on the transport's and the inner service's poll_ready) with fault injection, requests issued readiness-first as tower's Oneshot does, drain + probe phases; invariants at every hand-off and history checks; delta-debugged replay files"
 def pool(text, ref):
     return ("poolsim", "exploration", POOL_TECH, text + " Seeded search over schedules and fault sequences, not enumeration: a clean batch is evidence, not proof.", POOL_NOTE, ref)
 CHECKS.update({
@@ -28,13 +28,13 @@ CHECKS.update({
  "C03": pool("After a fault-free drain (all dials/handshakes/responses resolved, background quiescent, only woken futures polled) every non-cancelled request must be ready; a forced poll distinguishes lost wake-ups from stranded requests; a probe request per origin must then succeed.", "DESIGN.md 5 (C03), 4.A"),
  "C04": pool("An open HTTP/1 connection whose exchanges were all delivered must not be destroyed by the pool (no idle limit or timeout in this profile). Every transport connect call is attributed to its request and classified from the state at that request's issue step: idle connection present at a quiescent point, HTTP/2 attempt in flight, HTTP/2 connection established; cancelling an unserved request must not destroy idle connections. Ambiguous competition is not judged.", "DESIGN.md 5 (C04), 4.A"),
  "C05": pool("At every hand-off of a pooled connection: not closed before the request was issued nor before its hand-back; not idle longer than idle_timeout at the issue instant (virtual clock via hook H2), for idle durations on both sides of the limit.", "DESIGN.md 5 (C05), 4.A"),
- "C06": ("poolsim+realconnect",) + pool("Second part (realconnect): the real TcpTransport with a static resolver whose answer carries another port than the URI - the returned stream must be connected to the URI's port. At every hand-off the (scheme, authority) the connection was dialed for equals the request's, over 2-4 origins that differ only in scheme, port, case or host, with waiters and idle connections alive for several at once.", "DESIGN.md 5 (C06), 4.A")[1:],
+ "C06": ("poolsim+realconnect",) + pool("Second part (realconnect): the real TcpTransport with a static resolver whose answer carries another port than the URI - the returned stream must be connected to the URI's port. At every hand-off the (scheme, authority) the connection was dialed for equals the request's, over 2-4 origins that differ only in scheme (http, https, ws, wss), port, case, user information or host, with waiters and idle connections alive for several at once.", "DESIGN.md 5 (C06), 4.A")[1:],
  "C14": pool("After each hand-back / HTTP/2 registration the first request with a provably live waiter must be handed that connection at its very next poll; abandoned attempts complete into the pool (continue_after_preemption) or are dropped at once (otherwise).", "DESIGN.md 5 (C14), 4.A"),
- "C15": ("poolsim+e2eidle",) + pool("After every step: open idle HTTP/1 connections retained per origin, minus those a pending request could be holding, never exceeds max_idle_per_host in {0,1,2,k-1,k,k+1}. Second part (e2eidle): the same bound through a real Client built by Client::builder() in every order of the builder calls, real servers and SimNet - 100 ms of virtual time after a burst of k concurrent HTTP/1.1 requests the connections the client still holds are counted.", "DESIGN.md 5 (C15), 4.A, 11")[1:],
+ "C15": ("poolsim+e2eidle",) + pool("After every step: open idle HTTP/1 connections retained per origin, minus those in transit to a pending request that has not been polled since it was woken, never exceeds max_idle_per_host in {0,1,2,k-1,k,k+1}. Second part (e2eidle): the same bound through a real Client built by Client::builder() in every order of the builder calls, real servers and SimNet - 100 ms of virtual time after a burst of k concurrent HTTP/1.1 requests the connections the client still holds are counted.", "DESIGN.md 5 (C15), 4.A, 11")[1:],
  "C17": pool("Panic monitor (process-wide hook + catch_unwind around every call/poll/drop + background tasks) over step lists that include every http::Version constant, upgrades, cancels, service drop.", "DESIGN.md 5 (C17)"),
  "C18": ("iosim+realio", "exploration",
          "deterministic simulation: writer/reader scripts over each adapter stack on SimNet (seeded chunking, Pending injection, virtual delays, pipe capacity, over-initialising reads, EOF/reset at byte offsets) compared with a reference FIFO; second part (realio): the same seeded writer/reader scripts over hyperdriver's TcpStream / UnixStream (connect, accept, pair), bare, inside Braid inside client/server Stream, and under TLS, carried by real loopback and Unix-domain sockets (fault-free)",
-         "TokioIo in both directions, Rewind, client/server braid Stream (plain and TLS arms), duplex transport: bytes received are always a prefix of the position-indexed reference stream, nothing beyond what was offered, EOF after shutdown, resets surface as errors, read-buffer contract (pre-filled bytes untouched, no over-report). Seeded search.",
+         "TokioIo in both directions, Rewind, client/server braid Stream (plain and TLS arms, either side writing), duplex transport: bytes received are always a prefix of the position-indexed reference stream, nothing beyond what was offered, EOF after shutdown, resets surface as errors, read-buffer contract (pre-filled bytes untouched, no over-report). Seeded search.",
          "the TCP/Unix wrappers and Braid arms run over real kernel sockets, where chunking is the kernel's and no fault can be injected; TLS runs with >=32 KiB pipe capacity (smaller socket buffers deadlock any TLS handshake); an endpoint is not used again after it returned an error",
          "DESIGN.md 5 (C18), 4.D"),
  "C19": ("timersim+poolsim+e2etimeout", "exploration",
@@ -49,19 +49,19 @@ def e2e(engine, cat, tech, text, ref, note=E2E_NOTE):
     return (engine, cat, tech, text, note, ref)
 CHECKS.update({
  "C01": e2e("e2esim", "exploration",
-   "deterministic simulation: real client stack and real servers over SimNet (seeded chunking, Pending, virtual delays, EOF/reset at byte offsets, refused dials), seeded request mixes with cancels, redirects (followed or not, per the model of the redirect layer), caller-supplied User-Agent / te: trailers, every order of the builder calls; per-request identity/digest oracle at handler and client",
+   "deterministic simulation: real client stack and real servers over SimNet (seeded chunking, Pending, virtual delays, EOF/reset at byte offsets, refused dials), seeded request mixes with cancels, redirects (followed or not, per the model of the redirect layer), caller-supplied User-Agent / te: trailers, every order of the builder calls, server-side per-connection services that insist on tower's readiness contract (poll_ready before call, first answer Pending); per-request identity/digest oracle at handler and client",
    "Every request carries its id three times (path, header, body pattern); the handler checks what it receives, the client checks status, headers and every body byte of what it gets back, over HTTP/1.1, HTTP/2, TLS+ALPN, pooled reuse, concurrency, upgrades and cancels at every stage. Fault-free runs: every un-cancelled request must succeed; faulty runs: a failure is excused only by a transport fault on a connection of that origin; wrong or truncated data never.",
    "DESIGN.md 5 (C01), 4.B"),
  "C07": e2e("shutdown", "exploration",
-   "deterministic simulation: graceful-shutdown signal at a seeded virtual instant against 0-4 connections in every stage (plain or behind the TLS acceptor; raw HTTP/1 clients that split heads and pipeline, hyper HTTP/2 clients, silent / TLS-stalled clients; http1-only servers also built through with_http1(); connects queued at the instant of the signal); history oracle relative to the signal instant; executor wrapper counts connection tasks",
+   "deterministic simulation: graceful-shutdown signal at a seeded virtual instant against 0-4 connections in every stage (plain or behind the TLS acceptor; raw HTTP/1 clients that split heads and pipeline, hyper HTTP/2 clients, silent / TLS-stalled clients; http1-only servers also built through with_http1(); connects queued at the instant of the signal); history oracle relative to the signal instant; executor wrapper counts connection tasks and parks a task that wakes itself 100 000 times in a row without any stream operation or time passing (reported as a spin)",
    "Serving future Ok(()) exactly at the signal; nothing connected afterwards is served; every request whose handler had started completes correctly; every connection closed by the server and its task finished within 1 s (5 s with I/O delays) of its last exchange; idle and still-sniffing connections closed. http1 / http2 / auto.",
    "DESIGN.md 5 (C07), 4.B"),
  "C08": e2e("sniff", "fault_enumeration",
-   "deterministic simulation with enumerated fragmentation: every single cut position (all streams) and every pair of cut positions (HTTP/2 preface; all streams in thorough) of the first 32 bytes, byte-at-a-time, plus seeded cut sets with short reads / Pending / delays; differential oracle against plain hyper on the unfragmented stream",
+   "deterministic simulation with enumerated fragmentation: every single cut position (all streams) and every pair of cut positions (HTTP/2 preface; all streams in thorough) of the first 32 bytes, byte-at-a-time, plus seeded cut sets with short reads / Pending / delays, and a client that half-closes after a complete request while the handler is still working; differential oracle against plain hyper on the unfragmented stream",
    "Version seen by the handler is HTTP/2 iff the stream starts with the full preface; the response equals what plain hyper http1 / http2 answers to the same bytes; bodies longer than the sniff buffer are verified byte for byte behind the detector.",
    "DESIGN.md 5 (C08), 4.B"),
  "C09": e2e("srvfault", "fault_enumeration",
-   "deterministic simulation with enumerated fault kind x stage (cancelled connect, connect-then-close, garbage, head/body truncated at offsets, client gone mid-response, handler error, TLS garbage / plaintext / ClientHello truncated or stalled at offsets) x {SimNet, hyperdriver duplex} x {plain, TLS} x {auto, http1}, plus seeded fault sequences interleaved with well-behaved clients; second part (realsock): the TCP and Unix acceptors over real loopback / Unix-domain sockets with the order of system calls decided by the harness ({close, reset} x bytes written first x {in the listen backlog, after accept}, garbage, Unix peers bound to ordinary / non-UTF-8 paths), enumerated plus seeded sequences",
+   "deterministic simulation with enumerated fault kind x stage (cancelled connect, connect-then-close, garbage, head/body truncated at offsets, client gone mid-response, handler error, TLS garbage / plaintext / ClientHello truncated or stalled at offsets) x {SimNet, hyperdriver duplex} x {plain, TLS, TLS with Server::with_tls_connection_info()} x {auto, http1}, plus seeded fault sequences interleaved with well-behaved clients; second part (realsock): the TCP and Unix acceptors over real loopback / Unix-domain sockets with the order of system calls decided by the harness ({close, reset} x bytes written first x {in the listen backlog, after accept}, garbage, Unix peers bound to ordinary / non-UTF-8 paths), enumerated plus seeded sequences",
    "After every fault sequence the serving future is still pending, and every well-behaved client on its own connection (bystanders during the faults, a probe afterwards) gets its complete correct response within 30 s of virtual time.",
    "DESIGN.md 5 (C09), 4.B",
    E2E_NOTE + "; the TCP and Unix acceptors run over real kernel sockets (no seam): only the system-call order is controlled there, accept errors such as EMFILE cannot be injected; handler panics out of scope"),
